@@ -22,7 +22,7 @@ sys.path.insert(0, ROOT)
 
 from pyvc import sym, interp, models, contract, solve, loader, bounded  # noqa: E402
 
-CONTRACT_MODULES = ["der", "util", "numbertheory", "ellipticcurve", "ecdsa_", "keys", "rfc6979", "ecdh", "keys_load", "keys_ser", "curves", "groupmode", "history"]
+CONTRACT_MODULES = ["der", "util", "numbertheory", "ellipticcurve", "ecdsa_", "keys", "rfc6979", "ecdh", "keys_load", "keys_ser", "curves", "groupmode", "history", "concurrency"]
 
 
 def load_all():
@@ -62,7 +62,7 @@ def run_deductive(P, tier, R):
         if c is None:
             R.errors.append("no contract registered for %s" % q)
             continue
-        mod, qq, node = loader.find_function(q)
+        mod, qq, node = loader.find_function(q.split("@")[0])
         n0 = len(ex.obls)
         t0 = time.time()
         try:
